@@ -430,6 +430,36 @@ func checkWrapper(c *Ctx, w *ssa.Function, pr XProc, key string) {
 		wantRes = "Void"
 	}
 	R.Check(resT == wantRes, "C16.X3", key+"|result type", P.Pos(w.Pos()), "the wrapper returns a value of RFC type "+pr.Res, resT, "returns "+resT+" instead of "+wantRes)
+	// the reply belongs to this call: the RPC server encodes it after the wrapper has returned, concurrently with
+	// other calls of the same wrapper object - it must be a variable of this invocation, not memory of the (shared)
+	// wrapper or of the package
+	{
+		own, why := true, ""
+		for _, b := range w.Blocks {
+			r, ok := b.Instrs[len(b.Instrs)-1].(*ssa.Return)
+			if !ok || len(r.Results) != 2 {
+				continue
+			}
+			for src := range bwdSources(r.Results[0]) {
+				mi, isMI := src.(*ssa.MakeInterface)
+				if !isMI {
+					continue
+				}
+				if _, isPtr := mi.X.Type().Underlying().(*types.Pointer); !isPtr {
+					continue
+				}
+				if al, isA := stripConv(mi.X).(*ssa.Alloc); !isA || al.Parent() != w {
+					own, why = false, "the reply returned at "+P.Pos(r.Pos())+" is not a variable of the call ("+mi.X.String()+")"
+				}
+			}
+		}
+		for _, fw := range FieldWrites(w) {
+			if len(w.Params) > 0 && stripConv(fw.Base) == ssa.Value(w.Params[0]) {
+				own, why = false, "the wrapper stores into its receiver (field "+fw.Field+")"
+			}
+		}
+		R.Check(own, "C16.X3", key+"|reply is the call's own", P.Pos(w.Pos()), "the result handed to the RPC server is a variable of this invocation; the wrapper (one object for all calls) keeps no per-call state", "returns the address of a local; no store into the receiver", why+": two calls in flight share the reply - the bytes sent for one request carry the other's result")
+	}
 	// X4
 	if pr.Arg != "void" {
 		ok := false
